@@ -1,3 +1,4 @@
 -- Root of the `TgModel` library: models, lemmas and one property file per claimed property.
 import TgModel.Props.C01
 import TgModel.Props.C10
+import TgModel.Props.C20
